@@ -72,7 +72,7 @@ pub fn run(out: &mut Out, tier: &str, seed: u64, _corpus: Option<&str>) {
             watch(40, what.clone());
             let res = catch(|| encode(&mut wr, view, format, None, &o));
             unwatch();
-            out.count(&format!("fmt_{name}")); out.count(&format!("quality_{:?}", quality)); out.count(if fail_at.is_some() { "writer_failing" } else { "writer_ok" }); out.count(&format!("in_{}", color_id(color)));
+            out.count(&format!("fmt_{name}")); out.count(&format!("quality_{:?}", quality)); out.count("oracle_calls"); out.count(if fail_at.is_some() { "writer_failing" } else { "writer_ok" }); out.count(&format!("in_{}", color_id(color)));
             let Some(res) = res else { println!("IMPL-VIOLATION panic: encode {what}"); continue; };
             let multiple = support.and_then(|s| s.size_multiple()).map(|(a, b)| (a.get(), b.get())).unwrap_or((1, 1));
             let bad_size = w % multiple.0 != 0 || h % multiple.1 != 0;
